@@ -788,8 +788,15 @@ func (d *Driver) Apply(s Step) bool {
 		typ := tstypes.SpotOrderType(tstypes.SpotOrderType_value[s.S("type")])
 		bal := a.BankKeeper.GetBalance(ctx, c.Addr[user], den).Amount
 		amt := d.size(s.S("sz"), bal.QuoRaw(100))
-		rate := math.LegacyMustNewDecFromStr(s.S("rate"))
 		base, quote := s.S("base"), s.S("quote")
+		rate := math.LegacyOneDec()
+		if s.Has("rate") {
+			rate = math.LegacyMustNewDecFromStr(s.S("rate"))
+		} else { // relative to the market price the execution will compare with
+			if mp, err := a.TradeshieldKeeper.GetAssetPriceFromDenomInToDenomOut(ctx, base, quote); err == nil {
+				rate = mp.Mul(math.LegacyMustNewDecFromStr(s.S("mul")))
+			}
+		}
 		ev := newEvent("tradeshield.MsgCreateSpotOrder", user)
 		ev.Args["type"], ev.Args["denom"], ev.Args["amt"], ev.Args["target"], ev.Args["rate"] = typ.String(), den, amt.String(), tgt, ds(rate)
 		d.queue(user, ev, &tstypes.MsgCreateSpotOrder{OrderType: typ, OrderPrice: tstypes.OrderPrice{BaseDenom: base, QuoteDenom: quote, Rate: rate},
@@ -799,8 +806,16 @@ func (d *Driver) Apply(s Step) bool {
 	case "updateSpot":
 		ev := newEvent("tradeshield.MsgUpdateSpotOrder", user)
 		ev.Args["id"] = u(uint64(s.I("id")))
-		d.queue(user, ev, &tstypes.MsgUpdateSpotOrder{OwnerAddress: d.addr(user), OrderId: uint64(s.I("id")),
-			OrderPrice: tstypes.OrderPrice{BaseDenom: s.S("base"), QuoteDenom: s.S("quote"), Rate: math.LegacyMustNewDecFromStr(s.S("rate"))}})
+		op := tstypes.OrderPrice{BaseDenom: "uatom", QuoteDenom: "uusdc", Rate: math.LegacyOneDec()}
+		if o, found := a.TradeshieldKeeper.GetPendingSpotOrder(ctx, uint64(s.I("id"))); found {
+			op = o.OrderPrice
+		}
+		if s.Has("rate") {
+			op.Rate = math.LegacyMustNewDecFromStr(s.S("rate"))
+		} else if mp, err := a.TradeshieldKeeper.GetAssetPriceFromDenomInToDenomOut(ctx, op.BaseDenom, op.QuoteDenom); err == nil {
+			op.Rate = mp.Mul(math.LegacyMustNewDecFromStr(s.S("mul")))
+		}
+		d.queue(user, ev, &tstypes.MsgUpdateSpotOrder{OwnerAddress: d.addr(user), OrderId: uint64(s.I("id")), OrderPrice: op})
 		return true
 
 	case "cancelSpot":
@@ -856,8 +871,28 @@ func (d *Driver) Apply(s Step) bool {
 	case "updatePerpOrder":
 		ev := newEvent("tradeshield.MsgUpdatePerpetualOrder", user)
 		ev.Args["id"] = u(uint64(s.I("id")))
-		d.queue(user, ev, &tstypes.MsgUpdatePerpetualOrder{OwnerAddress: d.addr(user), OrderId: uint64(s.I("id")),
-			TriggerPrice: tstypes.TriggerPrice{TradingAssetDenom: s.S("d"), Rate: math.LegacyMustNewDecFromStr(s.S("rate"))}})
+		tpx := tstypes.TriggerPrice{TradingAssetDenom: "uatom", Rate: math.LegacyOneDec()}
+		if o, found := a.TradeshieldKeeper.GetPendingPerpetualOrder(ctx, uint64(s.I("id"))); found {
+			tpx = o.TriggerPrice
+		}
+		if s.Has("rate") {
+			tpx.Rate = math.LegacyMustNewDecFromStr(s.S("rate"))
+		} else if mp, err := a.PerpetualKeeper.GetAssetPrice(ctx, tpx.TradingAssetDenom); err == nil {
+			tpx.Rate = mp.Mul(math.LegacyMustNewDecFromStr(s.S("mul")))
+		}
+		d.queue(user, ev, &tstypes.MsgUpdatePerpetualOrder{OwnerAddress: d.addr(user), OrderId: uint64(s.I("id")), TriggerPrice: tpx})
+		return true
+
+	case "cancelPerpOrders":
+		var ids []uint64
+		if r, ok := s["ids"].([]any); ok {
+			for _, x := range r {
+				ids = append(ids, uint64(x.(float64)))
+			}
+		}
+		ev := newEvent("tradeshield.MsgCancelPerpetualOrders", user)
+		ev.Args["ids"] = idStrs(ids)
+		d.queue(user, ev, &tstypes.MsgCancelPerpetualOrders{OwnerAddress: d.addr(user), OrderIds: ids})
 		return true
 
 	case "cancelPerpOrder":
